@@ -962,10 +962,10 @@ func TestVerifC08(t *testing.T) {
 			jobs = append(jobs, job{sid, run})
 		}
 	}
-	// quick: 8 random sequences, every crash scenario once (12, four per store); thorough: 60 / 15x
+	// quick: 8 random sequences, every crash scenario once (12, four per store); thorough: 120 / 25x
 	nRandom, nCrashSeq := 8, 3
 	if thorough {
-		nRandom, nCrashSeq = 60, 45
+		nRandom, nCrashSeq = 120, 75
 	}
 	for i := 0; i < nRandom; i++ {
 		sid, n := fmt.Sprintf("r%d", i), 30+(i*7+int(seed))%31
@@ -1001,7 +1001,7 @@ func TestVerifC08(t *testing.T) {
 	// the schedule hook is global: the concurrent part runs alone
 	nConc := 1
 	if thorough {
-		nConc = 6
+		nConc = 10
 	}
 	for i := 0; i < nConc; i++ {
 		sid := fmt.Sprintf("k%d", i)
